@@ -17,13 +17,13 @@ CLAIM = ("For every catalogued component-wise operator and function (vector oper
          "element types and qualifiers of the tier; fma is shown equal in rounding-erased (real) arithmetic because scalar fma is std::fma and vector fma is a*b+c.")
 BOUNDS = ("values unbounded (every bit pattern incl. +-0, subnormals, inf, NaN, integer extremes) except documented preconditions: integer / and % with divisor != 0 and not INT_MIN/-1; "
           "shift counts 0 <= s < max(32, width); iround/uround 0 <= x and x+0.5 below 2^31; bitfieldExtract/Insert 0 <= offset, 0 <= bits, offset+bits <= width; "
-          "isMultiple/nextMultiple/prevMultiple with multiple > 0; findNSB bit count in 1..width (loop unwound 8 times). Signed overflow (a+b, -INT_MIN, abs(INT_MIN), ++INT_MAX) is UB in the scalar "
+          "isMultiple/next/prev/ceil/floor/roundMultiple with multiple > 0 and (signed) x +- multiple representable; signed *PowerOfTwo with |x| <= 2^(width-2); abs/sign/isPowerOfTwo except INT_MIN; nextFloat/prevFloat(x, n) with 0 <= n <= 3; findNSB bit count in 1..width (loop unwound 8 times). Signed overflow (a+b, -INT_MIN, abs(INT_MIN), ++INT_MAX) is UB in the scalar "
           "reference and the vector code alike; both are compared under the two's complement wrap-around the IR computes. "
           "quick: all lengths 1-4, element types float/int32/uint8, qualifier highp (defaultp); thorough: float/double/int8-64/uint8-64 and highp/mediump/lowp, mutant twins.")
 OUTSIDE = ("size of the rounding difference between scalar std::fma and vector a*b+c (shown equal only in exact real arithmetic); the 2^-8 accuracy of lowp inversesqrt against the exact value "
            "(measured not to finish; decided instead: the lowp vector overload equals the lowp vec1 overload per component, and highp/mediump use 1/sqrt); accuracy of libm itself; "
            "roundEven's int(x) for |x| >= 2^31 / NaN is UB in both overloads (C20), equality is shown with the conversion as the same unspecified function; "
-           "aligned_* qualifiers and SIMD builds (C03); gtx/extended_min_max: its scalar 3/4-argument overloads are ambiguous with ext/scalar_common (do not compile) and its C<T> overloads cannot bind vec<L,T,Q>, "
+           "aligned_* qualifiers and SIMD builds (C03); bitfieldReverse/bitfieldInsert on 8/16-bit element types (do not compile, see C05); gtx/extended_min_max: its scalar 3/4-argument overloads are ambiguous with ext/scalar_common (do not compile) and its C<T> overloads cannot bind vec<L,T,Q>, "
            "vector calls resolve to ext/vector_common which is covered; compound assignments with a right-hand side of another element type U != T.")
 ASSUMPTIONS = ['libm transcendentals (sin, exp, pow, ...) and frexp/ldexp are uninterpreted functions: the vector and the scalar overload are shown to call the same library function on the same argument',
                'the scalar reference for builtin operators is the compiler\'s own scalar expression (T)(a op b) in the same translation unit',
@@ -40,7 +40,7 @@ def wd(t): return 8 if t == 'bool' else int(t[1:])
 INCLUDES = ['glm/glm.hpp', 'glm/ext/scalar_common.hpp', 'glm/ext/vector_common.hpp', 'glm/ext/scalar_relational.hpp', 'glm/ext/vector_relational.hpp',
             'glm/ext/scalar_integer.hpp', 'glm/ext/vector_integer.hpp', 'glm/ext/scalar_reciprocal.hpp', 'glm/ext/vector_reciprocal.hpp',
             'glm/ext/matrix_common.hpp', 'glm/ext/matrix_relational.hpp', 'glm/gtc/epsilon.hpp', 'glm/gtx/component_wise.hpp',
-            'glm/ext/vector_int1_sized.hpp', 'glm/ext/vector_uint1_sized.hpp']
+            'glm/ext/vector_int1_sized.hpp', 'glm/ext/vector_uint1_sized.hpp', 'glm/ext/scalar_ulp.hpp', 'glm/ext/vector_ulp.hpp', 'glm/gtc/round.hpp']
 
 # ------------------------------------------------------------------------------------------------ case = one wrapper
 class Ctx:
@@ -113,7 +113,7 @@ def canon(t):
         dk = t.decl().kind()
         if dk in (z3.Z3_OP_FPA_ADD, z3.Z3_OP_FPA_MUL) and len(ch) == 3:
             a, b = ch[1], ch[2]
-            if str(a.sexpr()) > str(b.sexpr()): a, b = b, a
+            if a.get_id() > b.get_id(): a, b = b, a      # children are already canonical and z3 hash-conses: equal subterms have equal ids
             one = lambda v: z3.is_fp_value(v) and not v.isNaN() and not v.isInf() and z3.simplify(z3.fpEQ(v, z3.FPVal(1.0, v.sort()))).eq(z3.BoolVal(True)) and not v.isNegative()
             if dk == z3.Z3_OP_FPA_MUL and (one(a) or one(b)): r = b if one(a) else a        # 1*x == x exactly for every x (clang folds it on one side only)
             else: r = (z3.fpAdd if dk == z3.Z3_OP_FPA_ADD else z3.fpMul)(ch[0], a, b)
@@ -157,7 +157,22 @@ def p_not_intmin(t, L):
     def pre(i): return [x != bvv(1 << (wd(t) - 1), x) for x in i[0]]
     return pre
 def p_mult_pos(t, L):
-    def pre(i): return [(y > 0) if issg(t) else (y != 0) for y in i[1]]
+    """multiple > 0; signed types additionally x - m and x + m representable (the scalar code forms Source +- Multiple: signed overflow is UB in both overloads)"""
+    W = wd(t)
+    def pre(i):
+        h = [(y > 0) if issg(t) else (y != 0) for y in i[1]]
+        if issg(t):
+            for k in range(L):
+                for m_ in {k, 0}:
+                    X = sx(i[0][k], W + 2); M = sx(i[1][m_], W + 2)
+                    h += [X + M <= (1 << (W - 1)) - 1, X - M >= -(1 << (W - 1))]
+        return h
+    return pre
+def p_pow2_range(t, L):
+    """signed power-of-two rounding: |x| <= 2^(W-2) so that the next power of two is representable (signed overflow otherwise, UB in both overloads)"""
+    if not issg(t): return None
+    W = wd(t)
+    def pre(i): return [z3.And(x >= -(1 << (W - 2)), x <= (1 << (W - 2))) for x in i[0]]
     return pre
 
 # ------------------------------------------------------------------------------------------------ catalogue: operators
@@ -243,7 +258,7 @@ def fn_case(G, name, shapes, out='T', glm=None, sglm=None, pre=None, sexpr=None,
         kinds = {sh[k] for sh in shapes}
         cc = {{'i': 'int', 'j': 'int', 'b': 'bool', 'B': 'bool', 'u': 'uint32_t'}.get(x, c) for x in kinds}; assert len(cc) == 1, (name, shapes)
         ins.append((cc.pop(), L))
-    oc = {'T': c, 'bool': 'bool', 'int': 'int', 'uint': 'uint32_t', 'float': 'float'}[out]
+    oc = {'T': c, 'bool': 'bool', 'int': 'int', 'uint': 'uint32_t', 'float': 'float', 'int64': 'int64_t'}[out]
     C = Case('%s_L%d' % (name, L), ins, [oc], pre=pre, **kw)
     for sh in shapes:
         va = []; sa = []
@@ -349,13 +364,19 @@ def gen_int(G):
         o.append(fn_case(G, 'bitfieldReverse', ['v']))
         o.append(fn_case(G, 'bitfieldInsert', ['vvjj'], pre=p_bitfield(t, L, 2, 3), bounds='0 <= offset, 0 <= bits, offset+bits <= width'))
     o.append(fn_case(G, 'bitfieldExtract', ['vjj'], pre=p_bitfield(t, L, 1, 2), bounds='0 <= offset, 0 <= bits, offset+bits <= width'))
-    for f in ('isPowerOfTwo', 'nextPowerOfTwo', 'prevPowerOfTwo'):
-        o.append(fn_case(G, f, ['v'], out='bool' if f == 'isPowerOfTwo' else 'T', pre=p_not_intmin(t, L), bounds='all values except INT_MIN (abs overflows)' if issg(t) else 'all values'))
-    o.append(fn_case(G, 'isMultiple', ['vv', 'vs'], out='bool', pre=p_mult_pos(t, L), solver='portfolio', timeout=120, bounds='multiple > 0'))
-    o.append(fn_case(G, 'nextMultiple', ['vv', 'vs'], pre=p_mult_pos(t, L), solver='portfolio', timeout=120, bounds='multiple > 0'))
-    o.append(fn_case(G, 'prevMultiple', ['vv', 'vs'], pre=p_mult_pos(t, L), solver='portfolio', timeout=120, bounds='multiple > 0'))
+    o.append(fn_case(G, 'isPowerOfTwo', ['v'], out='bool', pre=p_not_intmin(t, L), bounds='all values except INT_MIN (abs overflows)' if issg(t) else 'all values'))
+    for f in ('nextPowerOfTwo', 'prevPowerOfTwo'):
+        o.append(fn_case(G, f, ['v'], pre=p_pow2_range(t, L), bounds='|x| <= 2^(width-2) (result representable)' if issg(t) else 'all values'))
+    o.append(fn_case(G, 'isMultiple', ['vv', 'vs'], out='bool', pre=p_mult_pos(t, L), solver='portfolio', timeout=120, bounds='multiple > 0, x +- multiple representable'))
+    o.append(fn_case(G, 'nextMultiple', ['vv', 'vs'], pre=p_mult_pos(t, L), solver='portfolio', timeout=120, bounds='multiple > 0, x +- multiple representable'))
+    o.append(fn_case(G, 'prevMultiple', ['vv', 'vs'], pre=p_mult_pos(t, L), solver='portfolio', timeout=120, bounds='multiple > 0, x +- multiple representable'))
     W = wd(t)
     o.append(fn_case(G, 'findNSB', ['vi'], out='int', pre=lambda i: [z3.And(k >= 1, k <= W) for k in i[1]], unwind=9, bounds='1 <= n <= %d, loop unwound 8 times' % W))
+    # gtc/round on integer vectors
+    for f in ('ceilPowerOfTwo', 'floorPowerOfTwo', 'roundPowerOfTwo'):
+        o.append(fn_case(G, f, ['v'], pre=p_pow2_range(t, L), bounds='|x| <= 2^(width-2) (result representable)' if issg(t) else 'all values'))
+    for f in ('ceilMultiple', 'floorMultiple', 'roundMultiple'):
+        o.append(fn_case(G, f, ['vv'], pre=p_mult_pos(t, L), solver='portfolio', timeout=120, bounds='multiple > 0, x +- multiple representable'))
     VTu = G.VT('glm::uint'); VTi = G.VT('int')
     if t == 'u32':
         for f in ('uaddCarry', 'usubBorrow'):
@@ -389,6 +410,15 @@ def gen_ext(G):
         o.append(fn_case(G, 'iround', ['v'], out='int', pre=p_round_range(t, L, 2147483000.0), bounds='0 <= x < 2147483000 (assert x >= 0; int conversion in range)'))
         o.append(fn_case(G, 'uround', ['v'], out='uint', pre=p_round_range(t, L, 4294967000.0), bounds='0 <= x < 4294967000 (assert x >= 0; uint conversion in range)'))
         o.append(fold_case(G, 'fcompMin', 'glm::fmin(%s, %s)')); o.append(fold_case(G, 'fcompMax', 'glm::fmax(%s, %s)'))
+        # ext/vector_ulp against ext/scalar_ulp
+        o.append(fn_case(G, 'nextFloat', ['v'])); o.append(fn_case(G, 'prevFloat', ['v']))
+        ulps = lambda i: [z3.And(k >= 0, k <= 3) for k in i[1]]
+        o.append(fn_case(G, 'nextFloat_n', ['vj', 'vi'], glm='glm::nextFloat', pre=ulps, unwind=6, bounds='0 <= ULPs <= 3 (loop unwound)'))
+        o.append(fn_case(G, 'prevFloat_n', ['vj', 'vi'], glm='glm::prevFloat', pre=ulps, unwind=6, bounds='0 <= ULPs <= 3 (loop unwound)'))
+        C = fn_case(G, 'floatDistance', ['vv'], out='int' if t == 'f32' else 'int64')
+        o.append(C)
+        # gtc/round on floating-point vectors (fmod is an uninterpreted libm call)
+        for f in ('ceilMultiple', 'floorMultiple', 'roundMultiple'): o.append(fn_case(G, f, ['vv']))
     return o
 
 MATS_Q = [(2, 2), (3, 2), (4, 4)]
@@ -435,6 +465,15 @@ def gen_mat(G, shapes, probe=None):
             o.append(C)
     return o
 
+def gen_gtxmm(G):
+    """with gtx/extended_min_max.hpp included, the 3/4-argument vector calls must still be the component-wise min/max (reference: nested 2-argument scalar glm::min/max;
+    the 3/4-argument scalar overloads are ambiguous once this header is included)"""
+    o = []
+    for f in ('min', 'max'):
+        o.append(fn_case(G, f + '3', ['vvv'], glm='glm::' + f, sexpr=lambda a, f=f: 'glm::%s(glm::%s(%s, %s), %s)' % (f, f, a[0], a[1], a[2])))
+        o.append(fn_case(G, f + '4', ['vvvv'], glm='glm::' + f, sexpr=lambda a, f=f: 'glm::%s(glm::%s(%s, %s), glm::%s(%s, %s))' % (f, f, a[0], a[1], f, a[2], a[3])))
+    return o
+
 GROUPS = {'ops': gen_ops, 'common': gen_common, 'exptrig': gen_exptrig, 'rel': gen_rel, 'int': gen_int, 'ext': gen_ext}
 
 def _ulp_mat_region(res, col):
@@ -451,9 +490,9 @@ def build(tier):
     types = ['f32', 'i32', 'u8'] if q else NUM
     quals = ['highp'] if q else ['highp', 'mediump', 'lowp']
     units = []; jobs = []; probes = []
-    def mk(group, t, ql, cases, split=1):
+    def mk(group, t, ql, cases, split=1, includes=INCLUDES):
         if not cases: return
-        U = Unit('c01_%s_%s_%s' % (group, t, ql), includes=INCLUDES)
+        U = Unit('c01_%s_%s_%s' % (group, t, ql), includes=includes)
         for C in cases: C.add_to(U)
         units.append(U)
         per = (len(cases) + split - 1) // split
@@ -468,7 +507,11 @@ def build(tier):
                 for L in (1, 2, 3, 4): cases += gen(Ctx(t, L, ql))
                 mk(group, t, ql, cases, split=2 if group in ('ops', 'exptrig', 'common') else 1)
             if t != 'bool':
-                mk('mat', t, ql, gen_mat(Ctx(t, 0, ql), MATS_Q if q else MATS_T))
+                mk('mat', t, ql, gen_mat(Ctx(t, 0, ql), MATS_Q if q else MATS_T), split=3 if isf(t) else 1)
+    if q:   # the lowp specialisation of inversesqrt is separate code: keep it in the quick tier
+        mk('exptrig', 'f32', 'lowp', [C for L in (1, 2, 3, 4) for C in gen_exptrig(Ctx('f32', L, 'lowp')) if C.name.startswith(('inversesqrt', 'sqrt', 'exp2'))])
+    for t in (['f32', 'i32'] if q else ['f32', 'f64', 'i32', 'u8', 'i64']):
+        mk('gtxmm', t, 'highp', [C for L in (1, 2, 3, 4) for C in gen_gtxmm(Ctx(t, L, 'highp'))], includes=['glm/glm.hpp', 'glm/gtx/extended_min_max.hpp'])
     # overload shapes that do not compile in the unchanged tree: compiled lazily inside the job, reported as KNOWN-FINDING while they fail
     for t in (['f32', 'i32'] if q else ['f32', 'i32', 'u8', 'f64', 'i64']):
         cases = []
@@ -485,8 +528,70 @@ def build(tier):
     return _BUILT[tier]
 
 def run_case(S, U, C):
-    S.check_fn(U, C.name, C.spec(), C.pre, mode=C.mode, unwind=C.unwind, timeout=S.cap(C.timeout or 30, (C.timeout or 30) * 3), solver=C.solver, known=C.known,
-               mutant=C.mutant(), bounds=C.bounds, side=C.side, validate=2 if S.quick else 4)
+    n0 = len(S.records)
+    res = S.check_fn(U, C.name, C.spec(), C.pre, mode=C.mode, unwind=C.unwind, timeout=S.cap(C.timeout or 30, (C.timeout or 30) * 3), solver=C.solver, known=C.known,
+                     bounds=C.bounds, side=C.side, validate=2 if S.quick else 4)
+    if res is not None and C.mode == 'fp': retry_unreproduced(S, U, C, res, n0)
+    if res is not None and not S.quick: mutant_twin(S, U, C, res)
+
+def mutant_twin(S, U, C, res):
+    """vacuity guard: the deliberately wrong spec 'vector component 0 == scalar result of component 1' must be refutable.  Searching a refuting model through a
+    bit-blasted double division costs minutes, so the floating-point inputs are first pinned to distinct generic constants (the query then only evaluates);
+    only if that does not refute the twin the solver searches freely (short cap; 'unknown' is recorded as inconclusive, a real 'unsat' is a vacuity error)."""
+    mg = C.mutant()
+    if mg is None: return
+    fn = U.fns[C.name]
+    hyps = input_wellformed(fn, res.ins) + list(C.pre(res.ins) if C.pre else []) + res.axioms
+    label, g = mg(res.ins, res.outs)[0]; g = goal_term(g)
+    name = '%s.%s.twin.%s' % (U.name, C.name, label); t0 = time.time()
+    pins = []
+    if C.mode == 'fp':
+        elem = fn.ins[0][0]; base = [0.4, 1.9, 1.1]
+        for k, ((c, n), terms) in enumerate(zip(fn.ins, res.ins)):
+            if c != elem: continue          # count / offset / ULP arguments stay free
+            if ct_kind(c) == 'f':
+                pins += [t == z3.fpToIEEEBV(z3.FPVal(base[k % 3] + 0.17 * j * (k + 1), FSORT[t.size()])) for j, t in enumerate(terms)]
+            elif ct_kind(c) in 'su':
+                pins += [t == z3.BitVecVal((30 + 7 * j + (j * j) % 3) if k == 0 else (4 + 3 * j + 5 * (k - 1)), t.size()) for j, t in enumerate(terms)]
+    r = 'unknown'; used = 'z3'
+    if pins:
+        r, m, dt, used = S.query(hyps + pins + [z3.Not(g)], 20, 'z3'); used += ' (element-typed inputs pinned to distinct constants)'
+    if r != 'sat':
+        r, m, dt, used = S.query(hyps + [z3.Not(g)], 10, 'z3')
+    S.rec(name=name, kind='mutant-twin', expect='sat', functions=[C.name], bounds=C.bounds, solver=used, result=r, time_s=round(time.time() - t0, 3), mandatory=False,
+          status='ok' if r == 'sat' else ('vacuous' if r == 'unsat' else 'inconclusive'))
+    if r == 'unsat': S.engine_errors.append('%s: mutant twin is not refutable (vacuous obligation?)' % name)
+
+def retry_unreproduced(S, U, C, res, n0):
+    """libm calls are uninterpreted: a counterexample may sit on a point where two different library functions happen to agree natively (exp2(0) == exp(0)),
+    which the harness files as 'counterexample not reproduced'.  Ask the solver for further counterexamples away from the inputs already tried; a reproduced one
+    is a VIOLATION (an unsat/unknown retry changes nothing: the obligation stays inconclusive)."""
+    bad = [r for r in S.records[n0:] if r.get('status') == 'inconclusive(cex not reproduced)' and r.get('kind') == 'spec' and not r['name'].endswith('.outside-known')]
+    if not bad: return
+    fn = U.fns[C.name]
+    hyps = input_wellformed(fn, res.ins) + list(C.pre(res.ins) if C.pre else []) + res.axioms
+    goals = dict(C.spec()(res.ins, res.outs)); pfx = '%s.%s.' % (U.name, C.name)
+    for r in bad[:8]:
+        oname = r['name']; label = oname[len(pfx):]; g = goals.get(label)
+        if g is None or not isinstance(r.get('replay_info'), dict) or 'inputs' not in r['replay_info']: continue
+        inputs = r['replay_info']['inputs']; blocked = []
+        rp = S._replayer(res, (C.spec(), label), C.pre, U, C.name, C.mode, oname)
+        for attempt in range(4):
+            blocked += [t != z3.BitVecVal(int(v, 16), t.size()) for terms, vals in zip(res.ins, inputs) for t, v in zip(terms, vals)]
+            # solver models favour tiny bit patterns (subnormals), exactly where exp/exp2/sin/... coincide: steer float inputs to generic magnitudes
+            rng = [(0.3, 0.9), (1.25, 7.0), (-0.9, -0.3), None][attempt]; steer = []
+            if rng:
+                for (c, n_), terms in zip(fn.ins, res.ins):
+                    if ct_kind(c) == 'f': steer += [z3.And(z3.fpGT(fpof(t), z3.FPVal(rng[0], FSORT[t.size()])), z3.fpLT(fpof(t), z3.FPVal(rng[1], FSORT[t.size()]))) for t in terms]
+            rr, m = S.prove('%s.retry%d' % (oname, attempt), goal_term(g), hyps + blocked + steer, timeout=S.cap(20, 60), replay=rp, mandatory=False, kind='spec-retry',
+                            bounds='further counterexample away from the inputs that did not reproduce')
+            rec = S.records[-1]
+            if rr == 'sat' and rec.get('replay') == 'reproduced':
+                S.inconclusive[:] = [x for x in S.inconclusive if not x.startswith(oname + ' [')]
+                break
+            if rr != 'sat' or not isinstance(rec.get('replay_info'), dict): break
+            inputs = rec['replay_info'].get('inputs', inputs)
+
 def make_job(U, cases):
     def run(S):
         for C in cases: run_case(S, U, C)
